@@ -929,7 +929,7 @@ def finding_key(c, m, i):
     v = c.get("variant") or {}
     if v.get("dict_strings") and v.get("fmt") == "parquet" and any((v.get("row_group") or 10 ** 9) < len(f["targets"]) for f in c["files"]):
         if i is not None and i[0] == "ok" and i[1].get("differs") == "error" and (i[1].get("variant") or {}).get("error") == "ValueError" \
-                and "Length of values" in ((i[1].get("variant") or {}).get("message") or "") \
+                and any(t in ((i[1].get("variant") or {}).get("message") or "") for t in ("Length of values", "Item wrong length")) \
                 and not i[1].get("baseline_vs_model") and not i[1].get("ineffective"):
             return KEY_PQ_DICT
     # text input writing integer-valued entries of a float spectrum-key column (ret_time, ExpMass) without a fraction: pandas
